@@ -78,6 +78,21 @@ def build_driver(race=False):
     return out
 
 
+def build_repo_binaries(pkgs):
+    """Build commands of /repo's working tree (no verif tag: the binaries a user runs) into WORKROOT/bin/repo."""
+    out = os.path.join(WORKROOT, "bin", "repo")
+    os.makedirs(out, exist_ok=True)
+    env = dict(os.environ, **GOENV)
+    t0 = time.time()
+    for pkg in pkgs:
+        p = subprocess.run(["go", "build", "-o", os.path.join(out, os.path.basename(pkg)), "github.com/openconfig/gnmi/" + pkg],
+                           cwd=HARNESS, env=env, stdout=subprocess.PIPE, stderr=subprocess.STDOUT, text=True)
+        if p.returncode != 0:
+            raise Infra("build of %s failed:\n%s" % (pkg, p.stdout[-4000:]))
+    log("[build] %s built in %.1fs" % (", ".join(os.path.basename(x) for x in pkgs), time.time() - t0))
+    return out
+
+
 class DriverCrash(Exception):
     """The driver process died; .stderr holds its last output (e.g. a Go panic of the code under test)."""
 
